@@ -109,6 +109,7 @@ func Instances(base Base, full bool) []Instance {
 	g.opMapTypes()
 	g.opCardinality()
 	g.opDefault()
+	g.opDefaultValues()
 	g.opCType()
 	g.opJSType()
 	g.opJavaUTF8()
@@ -126,23 +127,51 @@ func Instances(base Base, full bool) []Instance {
 }
 
 // SyntaxInstances generates the syntax-change operator (its own tiny base: the change must compile
-// under both syntaxes).
+// under both syntaxes). "unspecified" is a proto2 file without any syntax declaration (legal; buf tracks
+// it as "syntax unspecified" and documents it as proto2): every ordered pair of the four spellings.
 func SyntaxInstances() []Instance {
 	var out []Instance
-	syntaxes := []string{"proto2", "proto3", "editions"}
+	syntaxes := []string{"proto2", "proto3", "editions", "unspecified"}
+	// effective syntax of a spelling
+	eff := func(s string) string {
+		if s == "unspecified" {
+			return "proto2"
+		}
+		return s
+	}
+	set := func(f *File, s string) {
+		f.Syntax, f.NoSyntaxDecl = eff(s), s == "unspecified"
+	}
 	for _, from := range syntaxes {
 		for _, to := range syntaxes {
 			if from == to {
 				continue
 			}
 			for _, file := range []string{"a.proto", "b.proto"} {
-				old := SyntaxNeutralBase(from)
+				old := SyntaxNeutralBase(eff(from))
+				if from == "unspecified" {
+					// the whole old schema is written without syntax declarations
+					for _, f := range old.Files {
+						set(f, from)
+					}
+				}
 				nw := old.Clone()
-				nw.File(file).Syntax = to
-				ex := []Expect{{Rule: "FILE_SAME_SYNTAX", Names: []string{from, to}, File: file, LocKey: KeySyntax}}
+				set(nw.File(file), to)
+				var ex []Expect
+				if eff(from) != eff(to) {
+					// the annotation must name the declared syntaxes; how an undeclared one is spelled is left open
+					var names []string
+					for _, s := range []string{from, to} {
+						if s != "unspecified" {
+							names = append(names, s)
+						}
+					}
+					ex = []Expect{{Rule: "FILE_SAME_SYNTAX", Names: names, File: file, LocKey: KeySyntax}}
+				}
+				// else: proto2 <-> no declaration is the same syntax: no claim (kept for C04)
 				// proto2 differs from proto3 / edition 2023 defaults in: UTF8 validation of strings
 				// (NONE vs VERIFY), enum type (closed vs open), JSON format (best effort vs allow).
-				p2from, p2to := from == "proto2", to == "proto2"
+				p2from, p2to := eff(from) == "proto2", eff(to) == "proto2"
 				if p2from != p2to {
 					if file == "a.proto" {
 						ex = append(ex,
@@ -164,7 +193,11 @@ func SyntaxInstances() []Instance {
 				if file == "b.proto" {
 					pos = "second"
 				}
-				out = append(out, Instance{Base: "syntax-neutral", Op: "file-syntax", Variant: from + "->" + to,
+				op := "file-syntax"
+				if len(ex) == 0 {
+					op = "file-syntax-neutral"
+				}
+				out = append(out, Instance{Base: "syntax-neutral", Op: op, Variant: from + "->" + to,
 					Site: file + ":syntax", Pos: pos, Old: old, New: nw, Expects: ex})
 			}
 		}
@@ -286,11 +319,13 @@ func (g *gen) opEnumValue() {
 	}
 }
 
-// aliasEnum is added to the old schema at a position by the alias operator.
+// aliasEnum is added to the old schema at a position by the alias operator: number 1 carries two names,
+// number 2 two, number 3 three.
 func aliasEnum(name string) *Enum {
 	p := strings.ToUpper(name)
 	return &Enum{Name: name, Opts: []Opt{{"allow_alias", "true"}}, Values: []*EnumValue{
 		{p + "_UNSPECIFIED", 0}, {p + "_LOW", 1}, {p + "_MIN", 1}, {p + "_HIGH", 2}, {p + "_MAX", 2},
+		{p + "_TRI_A", 3}, {p + "_TRI_B", 3}, {p + "_TRI_C", 3},
 	}}
 }
 
@@ -320,35 +355,80 @@ func (g *gen) opEnumAlias() {
 			return s, e
 		}
 		old, _ := mk()
-		// delete every name of number 1
-		for _, v := range []struct {
-			name            string
-			numRes, nameRes bool
-		}{{"plain", false, false}, {"number-reserved", true, false}, {"all-names-reserved", false, true}} {
-			n, e := mk()
-			e.DeleteValue(p + "_LOW")
-			e.DeleteValue(p + "_MIN")
-			if v.numRes {
-				e.Reserved = append(e.Reserved, Range{1, 1})
+		// delete every name of an aliased number (1: two names, 3: three names); the new version reserves
+		// every subset of the deleted names (none, some, all) x the number reserved or not. A deleted value
+		// whose name is not reserved is "deleted without reserving the name", whatever its aliases got.
+		for _, grp := range []struct {
+			label string
+			num   int
+			names []string
+		}{{"pair", 1, []string{p + "_LOW", p + "_MIN"}}, {"triple", 3, []string{p + "_TRI_A", p + "_TRI_B", p + "_TRI_C"}}} {
+			for mask := 0; mask < 1<<len(grp.names); mask++ {
+				for _, numRes := range []bool{false, true} {
+					n, e := mk()
+					var reserved, unreserved []string
+					for i, vn := range grp.names {
+						e.DeleteValue(vn)
+						if mask&(1<<i) != 0 {
+							reserved = append(reserved, vn)
+						} else {
+							unreserved = append(unreserved, vn)
+						}
+					}
+					if numRes {
+						e.Reserved = append(e.Reserved, Range{grp.num, grp.num})
+					}
+					// reserved names are written in reverse order of declaration
+					for i := len(reserved) - 1; i >= 0; i-- {
+						e.ReservedNames = append(e.ReservedNames, reserved[i])
+					}
+					names := []string{itoa(grp.num), name}
+					ex := []Expect{{Rule: "ENUM_VALUE_NO_DELETE", Names: names, File: st.file, LocKey: KeyEnum(nested)}}
+					if !numRes {
+						ex = append(ex, Expect{Rule: "ENUM_VALUE_NO_DELETE_UNLESS_NUMBER_RESERVED", Names: names, File: st.file, LocKey: KeyEnum(nested)})
+					}
+					if len(unreserved) > 0 {
+						ex = append(ex, Expect{Rule: "ENUM_VALUE_NO_DELETE_UNLESS_NAME_RESERVED", Names: append(append([]string(nil), names...), unreserved...), File: st.file, LocKey: KeyEnum(nested)})
+					}
+					// variant names of the pre-existing cases are kept
+					variant := ""
+					switch {
+					case len(reserved) == 0 && !numRes:
+						variant = "plain"
+					case len(reserved) == 0:
+						variant = "number-reserved"
+					case len(unreserved) == 0 && !numRes:
+						variant = "all-names-reserved"
+					case len(unreserved) == 0:
+						variant = "all-names-and-number-reserved"
+					default:
+						sh := make([]string, len(reserved))
+						for i, r := range reserved {
+							sh[i] = strings.TrimPrefix(r, p+"_")
+						}
+						variant = "only-" + strings.Join(sh, "+") + "-reserved"
+						if numRes {
+							variant += "-and-number"
+						}
+					}
+					if grp.label != "pair" {
+						variant = grp.label + "-" + variant
+					}
+					g.emitPair("enum-alias-delete-number", variant, st.file, fmt.Sprintf("%s#%d", nested, grp.num), depth, old, n, ex...)
+				}
 			}
-			if v.nameRes {
-				e.ReservedNames = append(e.ReservedNames, p+"_LOW", p+"_MIN")
-			}
-			names := []string{"1", name}
-			ex := []Expect{{Rule: "ENUM_VALUE_NO_DELETE", Names: names, File: st.file, LocKey: KeyEnum(nested)}}
-			if !v.numRes {
-				ex = append(ex, Expect{Rule: "ENUM_VALUE_NO_DELETE_UNLESS_NUMBER_RESERVED", Names: names, File: st.file, LocKey: KeyEnum(nested)})
-			}
-			if !v.nameRes {
-				ex = append(ex, Expect{Rule: "ENUM_VALUE_NO_DELETE_UNLESS_NAME_RESERVED", Names: names, File: st.file, LocKey: KeyEnum(nested)})
-			}
-			g.emitPair("enum-alias-delete-number", v.name, st.file, nested+"#1", depth, old, n, ex...)
 		}
 		// one of two aliases removed (the number survives): every previous name of a number must remain
 		n0, e0 := mk()
 		e0.DeleteValue(p + "_MIN")
 		g.emitPair("enum-alias-delete-one-name", "number-survives", st.file, nested+"."+p+"_MIN", depth, old, n0,
 			Expect{Rule: "ENUM_VALUE_SAME_NAME", Names: []string{"1", name, p + "_MIN"}, File: st.file, LocKey: KeyEnumValue(nested, p+"_LOW")})
+		// two of three aliases removed (the number survives)
+		n3, e3 := mk()
+		e3.DeleteValue(p + "_TRI_B")
+		e3.DeleteValue(p + "_TRI_C")
+		g.emitPair("enum-alias-delete-one-name", "two-of-three-number-survives", st.file, nested+"."+p+"_TRI_B", depth, old, n3,
+			Expect{Rule: "ENUM_VALUE_SAME_NAME", Names: []string{"3", name}, File: st.file, LocKey: KeyEnumValue(nested, p+"_TRI_A")})
 		// rename one of the two aliases: the new name set is not contained in the old one
 		n, e := mk()
 		e.Value(p + "_MIN").Name = p + "_LEAST"
@@ -795,6 +875,94 @@ func (g *gen) opFieldTypeName() {
 			{p + "_UNSPECIFIED", 0}, {p + "_ONE", 1}, {p + "_TWO", 2}, {p + "_THREE", 3}, {p + "_FOUR", 4}}}}})
 		n.File(mr.File).Msg(mr.Nested).Field(4).Type = "Palette." + tt.enum
 		g.emit("field-type-name", "enum-to-superset-same-name", mr.File, mr.Nested+"#4", mr.Depth, n, all(f)[:1]...)
+
+		// the same type-name changes on the other shapes a message- / enum-typed field can have: repeated,
+		// oneof member, delimited encoding (editions: on the field and as file default), map value
+		pairOn := func(variant string, num int, shape func(s *Schema, f *Field), toType string, ex []Expect) {
+			old, nw := g.base.Schema.Clone(), g.base.Schema.Clone()
+			for _, sc := range []*Schema{old, nw} {
+				shape(sc, sc.File(mr.File).Msg(mr.Nested).Field(num))
+			}
+			nw.File(mr.File).Msg(mr.Nested).Field(num).Type = toType
+			g.emitPair("field-type-name", variant, mr.File, fmt.Sprintf("%s#%d", mr.Nested, num), mr.Depth, old, nw, ex...)
+		}
+		repeated := func(_ *Schema, f *Field) { f.Label = "repeated" }
+		f5, f4, f11 := mr.Msg.Field(5), mr.Msg.Field(4), mr.Msg.Field(11)
+		pairOn("repeated-message-to-other-message", 5, repeated, tt.altMsg, all(f5))
+		pairOn("repeated-enum-to-other-enum", 4, repeated, tt.otherEnum, all(f4))
+		pairOn("oneof-member-message-to-other-message", 11, func(_ *Schema, f *Field) { f.Type, f.Kind = tt.msg, "message" }, tt.altMsg, all(f11))
+		pairOn("oneof-member-enum-to-other-enum", 11, func(_ *Schema, f *Field) { f.Type, f.Kind = tt.enum, "enum" }, tt.otherEnum, all(f11))
+		mapEx := func() []Expect {
+			names := []string{"2", "value", "FMapEntry"}
+			return []Expect{{Rule: "FIELD_SAME_TYPE", Names: names, File: mr.File},
+				{Rule: "FIELD_WIRE_COMPATIBLE_TYPE", Names: names, File: mr.File},
+				{Rule: "FIELD_WIRE_JSON_COMPATIBLE_TYPE", Names: names, File: mr.File}}
+		}
+		pairOn("map-value-message-to-other-message", 7, func(_ *Schema, f *Field) { f.Type = "map<string, " + tt.msg + ">" }, "map<string, "+tt.altMsg+">", mapEx())
+		pairOn("map-value-enum-to-other-enum", 7, func(_ *Schema, f *Field) { f.Type = "map<string, " + tt.enum + ">" }, "map<string, "+tt.otherEnum+">", mapEx())
+		if g.syntax == "editions" {
+			delimited := func(_ *Schema, f *Field) { f.Opts = setOpt(f.Opts, "features.message_encoding", "DELIMITED") }
+			f17 := mr.Msg.Field(17)
+			pairOn("delimited-to-other-message", 17, func(*Schema, *Field) {}, tt.altMsg, all(f17))
+			pairOn("repeated-delimited-to-other-message", 17, repeated, tt.altMsg, all(f17))
+			pairOn("oneof-member-delimited-to-other-message", 11, func(s *Schema, f *Field) { f.Type, f.Kind = tt.msg, "group"; delimited(s, f) }, tt.altMsg, all(f11))
+			// DELIMITED as the file's default message encoding: every message field of the file is delimited
+			pairOn("file-default-delimited-to-other-message", 5, func(s *Schema, _ *Field) {
+				fl := s.File(mr.File)
+				fl.Opts = append([]Opt{{"features.message_encoding", "DELIMITED"}}, fl.Opts...)
+			}, tt.altMsg, all(f5))
+		}
+	}
+	// message- / enum-typed extensions
+	if g.syntax != "proto3" {
+		for _, st := range []struct {
+			msg   string
+			depth int
+		}{{"", 0}, {"Outer.Mid", 2}} {
+			for _, v := range []struct {
+				variant, from, to string
+				delimited         bool
+			}{
+				{"extension-message-to-other-message", "Payload", "PayloadAlt", false},
+				{"extension-enum-to-other-enum", "Color", "SpareEnumTop", false},
+				{"extension-delimited-to-other-message", "Payload", "PayloadAlt", true},
+			} {
+				if v.delimited && g.syntax != "editions" {
+					continue
+				}
+				old, nw := g.base.Schema.Clone(), g.base.Schema.Clone()
+				xname := "x_typed"
+				for _, sc := range []struct {
+					s   *Schema
+					typ string
+				}{{old, v.from}, {nw, v.to}} {
+					xf := extField(xname, 170, g.syntax, sc.typ)
+					xf.Kind = "message"
+					if v.delimited {
+						xf.Opts = []Opt{{"features.message_encoding", "DELIMITED"}}
+					}
+					x := &Extend{Extendee: "Extendable", Fields: []*Field{xf}}
+					if st.msg == "" {
+						sc.s.File("a.proto").Extends = append(sc.s.File("a.proto").Extends, x)
+					} else {
+						m := sc.s.File("a.proto").Msg(st.msg)
+						m.Extends = append(m.Extends, x)
+					}
+				}
+				full := "acme.v1." + xname
+				nestedName := xname
+				if st.msg != "" {
+					full = "acme.v1." + st.msg + "." + xname
+					nestedName = st.msg + "." + xname
+				}
+				names := []string{"170", full}
+				key := KeyExt(st.msg, "Extendable", 170)
+				g.emitPair("field-type-name", v.variant, "a.proto", nestedName, st.depth, old, nw,
+					Expect{Rule: "FIELD_SAME_TYPE", Names: names, File: "a.proto", LocKey: key},
+					Expect{Rule: "FIELD_WIRE_COMPATIBLE_TYPE", Names: names, File: "a.proto", LocKey: key},
+					Expect{Rule: "FIELD_WIRE_JSON_COMPATIBLE_TYPE", Names: names, File: "a.proto", LocKey: key})
+			}
+		}
 	}
 }
 
@@ -946,6 +1114,141 @@ func (g *gen) opDefault() {
 			}
 			g.emit("field-default", v.variant, mr.File, fmt.Sprintf("%s#%d", mr.Nested, v.num), mr.Depth, n,
 				Expect{Rule: "FIELD_SAME_DEFAULT", Names: fieldNames(mr, mr.Msg.Field(v.num)), File: mr.File, LocKey: KeyField(mr.Nested, v.num)})
+		}
+	}
+}
+
+// defaultValues lists, per field kind, distinct default values in ascending order (numbers) including the
+// boundary values of the kind and, for the 64-bit kinds and double, neighbours beyond 2^53 / for float beyond
+// 2^24 that a lossy intermediate representation would merge. Every two entries of a list are different
+// values of the kind (no 0 / -0, no two spellings of one number; nan once).
+func defaultValues(kind, enumPrefix string) []string {
+	switch kind {
+	case "int32", "sint32", "sfixed32":
+		return []string{"-2147483648", "-2147483647", "-1", "0", "1", "2147483646", "2147483647"}
+	case "uint32", "fixed32":
+		return []string{"0", "1", "2147483647", "2147483648", "4294967294", "4294967295"}
+	case "int64", "sint64", "sfixed64":
+		return []string{"-9223372036854775808", "-9223372036854775807", "-9007199254740993", "-9007199254740992", "-1", "0", "1",
+			"9007199254740992", "9007199254740993", "9223372036854775806", "9223372036854775807"}
+	case "uint64", "fixed64":
+		return []string{"0", "1", "9007199254740992", "9007199254740993", "9223372036854775807", "9223372036854775808",
+			"18446744073709551614", "18446744073709551615"}
+	case "float":
+		return []string{"-inf", "-1.5", "0.5", "1.5", "16777216", "16777218", "inf", "nan"}
+	case "double":
+		return []string{"-inf", "-1.5", "0.5", "1.5", "9007199254740992", "9007199254740994", "1e308", "inf", "nan"}
+	case "bool":
+		return []string{"false", "true"}
+	case "string":
+		return []string{`"A"`, `"a"`, `"a "`, `"ab"`, `"b"`}
+	case "bytes":
+		return []string{`"\000"`, `"a"`, `"a\000"`, `"ab"`, `"\377"`}
+	case "enum":
+		return []string{enumPrefix + "_UNSPECIFIED", enumPrefix + "_ONE", enumPrefix + "_TWO", enumPrefix + "_THREE"}
+	}
+	return nil
+}
+
+// opDefaultValues: per kind a row of fields d_<kind>_<i> whose defaults step through defaultValues(kind): in the
+// "up" instance field i changes from value i to value i+1 (the last one wraps to the first), in "down" the
+// other way round. On every standard message (fields 40+) and as extensions (top level and nested twice).
+func (g *gen) opDefaultValues() {
+	if g.syntax == "proto3" {
+		return
+	}
+	sg := singular(g.syntax)
+	kinds := append(append([]string(nil), ScalarKinds...), "enum")
+	type rowT struct {
+		fields  []*Field // with the old default
+		newDefs []string
+		variant string
+		oldDefs []string
+	}
+	rows := func(prefix string, firstNum int, enumT string) []rowT {
+		var out []rowT
+		for _, kind := range kinds {
+			vals := defaultValues(kind, strings.ToUpper(short(enumT)))
+			for _, dir := range []string{"up", "down"} {
+				if dir == "down" && len(vals) == 2 {
+					continue // two values: "up" already has both directions
+				}
+				row := rowT{variant: kind + "-" + dir}
+				for i := range vals {
+					from, to := vals[i], vals[(i+1)%len(vals)]
+					if dir == "down" {
+						from, to = to, from
+					}
+					f := &Field{Name: fmt.Sprintf("%s%s_%d", prefix, kind, i), Num: firstNum + i, Label: sg, Type: kind, Kind: kind, Opts: []Opt{{"default", from}}}
+					if kind == "enum" {
+						f.Type = enumT
+					}
+					row.fields = append(row.fields, f)
+					row.oldDefs = append(row.oldDefs, from)
+					row.newDefs = append(row.newDefs, to)
+				}
+				out = append(out, row)
+			}
+		}
+		return out
+	}
+	cloneFields := func(fs []*Field, defs []string) []*Field {
+		out := make([]*Field, len(fs))
+		for i, f := range fs {
+			c := *f
+			c.Opts = []Opt{{"default", defs[i]}}
+			out[i] = &c
+		}
+		return out
+	}
+	for _, mr := range g.base.Schema.Messages() {
+		if !hasStdBody(mr.Msg) {
+			continue
+		}
+		for _, row := range rows("d_", 40, typesOf[mr.File].enum) {
+			old, nw := g.base.Schema.Clone(), g.base.Schema.Clone()
+			om, nm := old.File(mr.File).Msg(mr.Nested), nw.File(mr.File).Msg(mr.Nested)
+			om.Fields = append(om.Fields, cloneFields(row.fields, row.oldDefs)...)
+			nm.Fields = append(nm.Fields, cloneFields(row.fields, row.newDefs)...)
+			var ex []Expect
+			for _, f := range row.fields {
+				ex = append(ex, Expect{Rule: "FIELD_SAME_DEFAULT", Names: fieldNames(mr, f), File: mr.File, LocKey: KeyField(mr.Nested, f.Num)})
+			}
+			g.emitPair("field-default-values", row.variant, mr.File, mr.Nested+"#40..", mr.Depth, old, nw, ex...)
+		}
+	}
+	// the same rows as extensions of Extendable: at the top level of a.proto and inside Outer.Mid
+	for _, st := range []struct {
+		msg   string
+		depth int
+	}{{"", 0}, {"Outer.Mid", 2}} {
+		for _, row := range rows("x_d_", 150, "Color") {
+			old, nw := g.base.Schema.Clone(), g.base.Schema.Clone()
+			for _, sd := range []struct {
+				s    *Schema
+				defs []string
+			}{{old, row.oldDefs}, {nw, row.newDefs}} {
+				x := &Extend{Extendee: "Extendable", Fields: cloneFields(row.fields, sd.defs)}
+				if st.msg == "" {
+					sd.s.File("a.proto").Extends = append(sd.s.File("a.proto").Extends, x)
+				} else {
+					m := sd.s.File("a.proto").Msg(st.msg)
+					m.Extends = append(m.Extends, x)
+				}
+			}
+			var ex []Expect
+			for _, f := range row.fields {
+				full := "acme.v1." + f.Name
+				if st.msg != "" {
+					full = "acme.v1." + st.msg + "." + f.Name
+				}
+				ex = append(ex, Expect{Rule: "FIELD_SAME_DEFAULT", Names: []string{itoa(f.Num), full}, File: "a.proto", LocKey: KeyExt(st.msg, "Extendable", f.Num)})
+			}
+			elem := "extend Extendable#150.."
+			if st.msg != "" {
+				elem = st.msg + ".extend Extendable#150.."
+			}
+			g.emitPair("field-default-values", "extension-"+row.variant, "a.proto", elem, st.depth, old, nw, ex...)
 		}
 	}
 }
